@@ -2,7 +2,7 @@
 from vlib import env, core, gen, asserts, printer, gread  # noqa: F401
 
 ID = "C05"
-BUDGET = {"quick": 2500, "thorough": 25000}
+BUDGET = {"quick": 2000, "thorough": 25000}
 PROFILE = gen.profile(retract="matched", home_mid=False, cvisit=4, cyc_w=14, arcs=1)
 RULE = ("Programs with matched equal-length retract/recover cycles (per program E-only or G10/G11, never mixed), retract / "
         "recover / enter / exit alternations weighted up; depth = filament high-water mark minus position on the reference "
